@@ -607,7 +607,7 @@ func c07Spec() propSpec {
 			replayVariants: []int{rvHonest, rvForeignSet, rvForeignPowers},
 			minOps:         3, maxOps: 30,
 			dh: []int{0, 0, 0, 1}, dr: []int{0, 0, 0, 1},
-			valChange: []int{1, 2, 2},
+			valChange: []int{1, 2, 2, 3},
 			inits:     []uint64{1, 1, 5},
 		},
 		oracle: c07Oracle,
@@ -830,28 +830,16 @@ func c06Spec() propSpec {
 			replayVariants: []int{rvHonest},
 			minOps:         4, maxOps: 40,
 			dh: []int{0}, dr: []int{0, 0, 0, 1, 1, 2},
-			valChange:   []int{0},
+			valChange:   []int{0, 0, 3},
 			multiTarget: true,
 			fOnly:       true,
 		},
 		setup: func(s *sim) {
 			s.fOnly = true
-			// sanitize F: drop members until 3*power(F) < total
-			set := s.w.genesis
-			m := s.c.Cfg.F & fullMask(len(set.Keys))
-			for i := len(set.Keys) - 1; i >= 0 && m != 0; i-- {
-				if new(big.Int).Mul(big.NewInt(3), powerOfMask(set, m)).Cmp(set.total()) < 0 {
-					break
-				}
-				m &^= 1 << uint(i)
-			}
-			if new(big.Int).Mul(big.NewInt(3), powerOfMask(set, m)).Cmp(set.total()) >= 0 {
-				m = 0
-			}
-			s.fMask = m
+			s.fMask = 0
 		},
 		oracle: c06Oracle,
-		nontrivial: func(s *sim) bool { return s.fMask != 0 && s.labels["f-equivocation"] > 0 },
+		nontrivial: func(s *sim) bool { return s.labels["f-equivocation"] > 0 },
 	}
 }
 
